@@ -53,9 +53,20 @@ def gen_case(rng, max_n=8, p_fail=0.08, p_flag=0.2, mode_mix=True):
             case["root"] = None
         elif r < 0.4:
             # some nodes are setup nodes (only allowed to depend on setup nodes / constants)
-            case["setup"] = [i for i in range(n) if all((p, i) not in set(map(tuple, edges)) for p in range(n))
-                             and (str(i) not in flags or flags[str(i)][0] == "const") and rng.random() < 0.5]
+            # setup nodes depend on setup nodes only (roots, chains, diamonds of setup nodes)
+            srng = random.Random(rng.getrandbits(30))
+            eset0 = set(map(tuple, edges))
+            st_ = []
+            for i in range(n):
+                preds_ = [p for p in range(n) if (p, i) in eset0]
+                if all(p in st_ for p in preds_) and (str(i) not in flags or flags[str(i)][0] == "const") and srng.random() < (0.5 if not preds_ else 0.7):
+                    st_.append(i)
+            case["setup"] = st_
             case["mode"] = rng.choice(["call", "setup_then_call"])
+            roots_ = [i for i in st_ if not any((p, i) in eset0 for p in range(n))]
+            if case["mode"] == "setup_then_call" and roots_ and srng.random() < 0.5:
+                case["mode"] = "setup_root_then_call"  # dag.setup(root_nodes=<setup roots>) then a call
+                case["setup_roots"] = roots_
     if reconf:
         case["reconf"] = gen_reconf(rrng, case)
     # debug nodes (only nodes all of whose dependents are debug nodes), run with RUN_DEBUG_NODES on or off
@@ -154,6 +165,11 @@ CORPUS = [
     # two flags taken from different items of one result
     dict(kind="sched", n=3, edges=[], attrs=[dict(priority=0, is_sequential=False, resource="thread")] * 3, flags={"1": ["node", 0, 0], "2": ["node", 0, 1]}, rets=[[1, 0], 1, 1], fails=[], maxc=1, is_async=False, mode="call"),
     dict(kind="sched", n=3, edges=[], attrs=[dict(priority=0, is_sequential=False, resource="thread"), dict(priority=1, is_sequential=False, resource="thread"), dict(priority=2, is_sequential=False, resource="thread")], flags={"1": ["node", 0, 0], "2": ["node", 0, 1]}, rets=[[1, 0], 1, 1], fails=[], maxc=2, is_async=True, mode="call"),
+    # a diamond of setup nodes set up through its root
+    dict(kind="sched", n=5, edges=[[0, 1], [0, 2], [1, 3], [2, 3], [3, 4]], attrs=[dict(priority=0, is_sequential=False, resource="thread"), dict(priority=0, is_sequential=False, resource="thread"), dict(priority=-1, is_sequential=False, resource="thread"), dict(priority=5, is_sequential=False, resource="thread"), dict(priority=0, is_sequential=False, resource="thread")],
+         flags={}, rets=[1] * 5, fails=[], maxc=2, is_async=False, mode="setup_root_then_call", setup=[0, 1, 2, 3], setup_roots=[0]),
+    dict(kind="sched", n=4, edges=[[0, 1], [0, 2], [1, 3], [2, 3]], attrs=[dict(priority=0, is_sequential=False, resource="async-thread"), dict(priority=0, is_sequential=False, resource="thread"), dict(priority=-1, is_sequential=False, resource="async-thread"), dict(priority=5, is_sequential=False, resource="thread")],
+         flags={}, rets=[1] * 4, fails=[], maxc=3, is_async=True, mode="setup_root_then_call", setup=[0, 1, 2, 3], setup_roots=[0]),
     # a failing debug node with a debug dependent, RUN_DEBUG_NODES on
     dict(kind="sched", n=3, edges=[[0, 1], [1, 2]], attrs=[dict(priority=0, is_sequential=False, resource="thread")] * 3, flags={}, rets=[1, 1, 1], fails=[1], maxc=2, is_async=False, mode="call", debug=[1, 2], run_debug=True),
     dict(kind="sched", n=3, edges=[[0, 1], [1, 2]], attrs=[dict(priority=0, is_sequential=False, resource="async-thread")] * 3, flags={}, rets=[1, 1, 1], fails=[1], maxc=2, is_async=True, mode="call", debug=[1, 2], run_debug=True),
@@ -238,6 +254,8 @@ def build(case):
         return d, [lambda: d(), lambda: d()]
     if mode == "setup_then_call":
         return d, [lambda: d.setup(), lambda: d()]
+    if mode == "setup_root_then_call":
+        return d, [lambda: d.setup(root_nodes=names(case["setup_roots"])), lambda: d()]
     if mode == "exec":
         ex = d.executor(target_nodes=names(case.get("target")), exclude_nodes=names(case.get("exclude")), root_nodes=names(case.get("root")))
         return d, [lambda: ex()]
